@@ -312,10 +312,92 @@ def _flag_idiom(prog, fn):
     return False
 
 
+CONST_TAKERS = r"grammar::(directive::directives?|argument::arguments?|value::(value|list_value|object_value|object_field))$"
+# October 2021: which productions take Directives / Arguments / Value *without* [Const]
+NOTCONST_CALLERS = {"field", "fragment_definition", "fragment_spread", "inline_fragment", "operation_definition"}
+CONST_CALLERS = {
+    "variable_definition", "default_value", "schema_definition", "schema_extension",
+    "scalar_type_definition", "scalar_type_extension", "object_type_definition", "object_type_extension",
+    "field_definition", "input_value_definition", "interface_type_definition", "interface_type_extension",
+    "union_type_definition", "union_type_extension", "enum_type_definition", "enum_type_extension",
+    "enum_value_definition", "input_object_type_definition", "input_object_type_extension",
+}
+
+
+def rule_const(prog, rep):
+    """C05.CONST: the [Const] parameter of Directives / Arguments / Value.  Every call into a
+    production that takes a Constness either passes the caller's own parameter through unchanged
+    (also through a closure capture) or passes the constant the grammar prescribes for the calling
+    production; and `value` reports an error for a Variable under Const on every path."""
+    rep.floor("C05.CONST", 30)
+    for fn in sorted(prog.fns.values(), key=lambda f: f.name):
+        if fn.crate != "apollo_parser":
+            continue
+        for c in fn.live_calls():
+            if not re.search(CONST_TAKERS, c.name):
+                continue
+            callee = c.name.split("grammar::")[-1]
+            caller = fn.name.split("grammar::")[-1]
+            s = fn.sym(c.args[1])
+            m = re.fullmatch(r"Constness::(Const|NotConst)\{\}", s)
+            if m:
+                leaf = caller.split("::")[1] if "::" in caller else caller
+                want = "NotConst" if leaf in NOTCONST_CALLERS else "Const" if leaf in CONST_CALLERS else None
+                if want is None:
+                    rep.fail("UNDECIDED rule=C05.CONST %s passes a constant Constness to %s but is not in the [Const] table of the grammar" % (caller, callee))
+                elif want == m.group(1):
+                    rep.instance("C05.CONST", "%s -> %s(%s) as the grammar prescribes" % (caller, callee, want))
+                else:
+                    rep.finding("C05.CONST", fn.name, "%s:%s" % (callee, m.group(1)),
+                                "%s calls %s with Constness::%s; the grammar has %s there, so %s" % (
+                                    caller, callee, m.group(1), "[Const]" if want == "Const" else "no [Const]",
+                                    "a variable is accepted where only constant values are allowed" if want == "Const" else "variables are rejected in an executable position"), c.loc())
+                continue
+            ok = False
+            if fn.kind == "closure":
+                mm = re.fullmatch(r"arg1\.(\d+)", s)
+                parent = prog.fns.get(fn.parent)
+                if mm and parent is not None:
+                    # the captured value in the creating function
+                    for b in parent.live_blocks():
+                        for st in parent.stmts(b):
+                            if st[0] == "=" and st[2][0] == "agg" and isinstance(st[2][1], list) and st[2][1][0] == "closure" and st[2][1][1] == fn.uid:
+                                ops = st[2][2]
+                                i = int(mm.group(1))
+                                if i < len(ops) and parent.sym(ops[i]).lstrip("&") == "arg2" and parent.local_ty(2).endswith("value::Constness"):
+                                    ok = True
+            elif s == "arg2" and fn.local_ty(2).endswith("value::Constness"):
+                ok = True
+            if ok:
+                rep.instance("C05.CONST", "%s -> %s passes its own [?Const] parameter through" % (caller, callee))
+            else:
+                rep.finding("C05.CONST", fn.name, "%s:not-propagated" % callee,
+                            "%s calls %s with `%s` instead of its own Constness parameter: [?Const] is not propagated" % (caller, callee, s), c.loc())
+    # the leaf: a Variable under Const is an error on every path
+    val = prog.fn(r"^apollo_parser::parser::grammar::value::value$")
+    var_calls = [c for c in val.live_calls() if re.search(r"grammar::variable::variable$", c.name)]
+    errs = [c.block for c in val.live_calls() if re.search(r"Parser::<'input>::(err|err_and_pop)$", c.name)]
+    sw = [(b, val.switch_info(b)) for b in sorted(val.live_blocks())]
+    sw = [(b, i) for b, i in sw if i and i.get("kind") == "enum" and i["adt"].endswith("value::Constness") and val.sym(i["place"]).lstrip("&") == "arg2"]
+    if len(var_calls) != 1 or len(sw) != 1:
+        rep.fail("UNDECIDED rule=C05.CONST value(): expected one call of variable() and one test of the Constness parameter (found %d / %d)" % (len(var_calls), len(sw)))
+        return
+    b, info = sw[0]
+    t_const = info["edges"].get("Const", info["otherwise"])
+    ok = val.dominates(b, var_calls[0].block) or must_pass(val, [0], [var_calls[0].block], [b])[0]
+    ok = ok and must_pass(val, [t_const], [var_calls[0].block] + val.return_blocks(), errs)[0]
+    rep.obligation(ok)
+    if ok:
+        rep.instance("C05.CONST", "value(): under Constness::Const every path to variable() reports `unexpected variable value in a Const context`")
+    else:
+        rep.finding("C05.CONST", val.name, "variable-under-const", "value() can parse a Variable under Constness::Const without reporting an error", val.loc())
+
+
 def run(prog, rep):
     rule_dispatch(prog, rep)
     rule_locations(prog, rep)
     rule_nonempty(prog, rep)
+    rule_const(prog, rep)
     from . import parser_produce
 
     parser_produce.run(prog, rep)
